@@ -67,6 +67,7 @@ func (actorSelf *ActorDef[T]) Send(message T) {
 	if actorSelf.isClosed {
 		return
 	}
+	verifAt("actor.Send.checked")
 
 	actorSelf.ch <- message
 }
@@ -102,6 +103,7 @@ func (actorSelf *ActorDef[T]) GetID() time.Time {
 // Close Close the Actor
 func (actorSelf *ActorDef[T]) Close() {
 	actorSelf.isClosed = true
+	verifAt("actor.Close.flagged")
 
 	close(actorSelf.ch)
 }
@@ -113,6 +115,7 @@ func (actorSelf *ActorDef[T]) IsClosed() bool {
 
 func (actorSelf *ActorDef[T]) run() {
 	for message := range actorSelf.ch {
+		verifAt("actor.run.next")
 		actorSelf.effect(actorSelf, message)
 	}
 }
@@ -172,6 +175,7 @@ func (askSelf *AskDef[T, R]) AskOnceWithTimeout(target ActorHandle[interface{}],
 	select {
 	case result = <-ch:
 	case <-time.After(timeout):
+		verifAt("ask.timeout.fired")
 		return result, ErrActorAskTimeout
 	}
 
@@ -187,6 +191,7 @@ func (askSelf *AskDef[T, R]) AskChannel(target ActorHandle[interface{}]) chan R 
 
 // Reply Receiver Reply
 func (askSelf *AskDef[T, R]) Reply(response R) {
+	verifAt("ask.Reply.enter")
 	askSelf.ch <- response
 }
 
